@@ -4,7 +4,9 @@ mod cli;
 mod cnode;
 mod exec;
 mod gen;
+mod guard;
 mod judges;
+mod kernels;
 mod known;
 mod model;
 mod ops;
@@ -112,6 +114,11 @@ fn real_main(args: &[String]) -> i32 {
             0
         }
         "selftest" => match args.get(2).map(|s| s.as_str()) {
+            Some("det-shard") => {
+                let g = |n: &str| arg_val(args, n).and_then(|s| s.parse::<u64>().ok()).unwrap_or(0);
+                let specs: Vec<_> = checks::all_props().iter().filter_map(|p| checks::spec(p)).collect();
+                runner::selftest_det_shard(&specs, g("--seeds"), g("--shard"), g("--of").max(1))
+            }
             Some("determinism") => {
                 let seeds = arg_val(args, "--seeds").and_then(|s| s.parse().ok()).unwrap_or(300u64);
                 let specs: Vec<_> = checks::all_props().iter().filter_map(|p| checks::spec(p)).collect();
